@@ -163,7 +163,7 @@ func ruleFieldFlow(c *Ctx, r *Report, s ffSpec) {
 			}
 		}
 		for f := range at.Fields {
-			if !allowedField[f] {
+			if !allowedField[f] && !allowedField["*"] {
 				viol = fmt.Sprintf("%s: %s.%s also depends on unexpected field %s", w.pos(sk.Pos), ownerName(s.Owner), s.Field, f)
 			}
 		}
